@@ -1,1 +1,78 @@
-//! Verification wrappers for this component (data-only re-exports of crate-private items).
+//! Data-only access to the compaction retention rule
+//! (`CompactionIterator::process_accumulated_versions`).
+
+use std::sync::Arc;
+
+use crate::batch::Batch;
+use crate::iter::{BoxedLSMIterator, CompactionIterator};
+use crate::memtable::MemTable;
+use crate::verif::clock::ManualClock;
+use crate::{Comparator, InternalKeyKind, Options};
+
+/// One version of a user key as compaction sees it.
+#[derive(Debug, Clone, PartialEq, Eq)]
+pub struct Ver {
+	pub key: Vec<u8>,
+	pub seq: u64,
+	/// `InternalKeyKind as u8` (0 Delete, 1 SoftDelete, 2 Set, 6 Replace)
+	pub kind: u8,
+	pub ts: u64,
+	pub value: Vec<u8>,
+	/// which input table (merge source) holds this version
+	pub source: usize,
+}
+
+/// Run the real compaction iterator over `input` (spread over `max(source)+1`
+/// merge sources) and return the versions it emits, in emission order.
+pub fn compaction_filter(
+	input: &[Ver],
+	snapshots: Vec<u64>,
+	is_bottom_level: bool,
+	enable_versioning: bool,
+	retention_ns: u64,
+	now: u64,
+) -> Result<Vec<Ver>, String> {
+	let nsrc = input.iter().map(|v| v.source).max().map(|m| m + 1).unwrap_or(0);
+	let mut tables: Vec<MemTable> = Vec::new();
+	for s in 0..nsrc {
+		let mt = MemTable::new(1 << 20);
+		for v in input.iter().filter(|v| v.source == s) {
+			let mut b = Batch::new(v.seq);
+			let kind = InternalKeyKind::from(v.kind);
+			let value = match kind {
+				InternalKeyKind::Delete | InternalKeyKind::SoftDelete => None,
+				_ => Some(v.value.clone()),
+			};
+			b.add_record(kind, v.key.clone(), value, v.ts).map_err(|e| e.to_string())?;
+			mt.add(&b).map_err(|e| e.to_string())?;
+		}
+		tables.push(mt);
+	}
+	let iters: Vec<BoxedLSMIterator<'_>> =
+		tables.iter().map(|t| Box::new(t.iter()) as BoxedLSMIterator<'_>).collect();
+	let opts = Options::default();
+	let cmp = Arc::clone(&opts.internal_comparator) as Arc<dyn Comparator>;
+	let clock = ManualClock::new(now);
+	let it = CompactionIterator::new(
+		iters,
+		cmp,
+		is_bottom_level,
+		enable_versioning,
+		retention_ns,
+		clock,
+		snapshots,
+	);
+	let mut out = Vec::new();
+	for item in it {
+		let (k, v) = item.map_err(|e| e.to_string())?;
+		out.push(Ver {
+			key: k.user_key.clone(),
+			seq: k.seq_num(),
+			kind: k.kind() as u8,
+			ts: k.timestamp,
+			value: v.to_vec(),
+			source: 0,
+		});
+	}
+	Ok(out)
+}
